@@ -6,7 +6,7 @@ from props import _dhelp as H
 from common import bits, unbits, fb, close, canon_hash
 
 ID = "C14"
-SECTIONS = ["ops"]          # derived values are propagated through the generated operator tables
+SECTIONS = ["ops", "stats", "uncert"]   # derived values: generated operator tables; repeated values: Generated/Stats.lean
 LEAN_MODULES = ["QExPy.Props.C14"]
 THEOREMS = ["QExPy.C14_derived_nonneg",
             "QExPy.C14_inv_step",
